@@ -340,6 +340,21 @@ def replay_orient(inputs):
                     bad.append(f'symmetrize({pg}) images of vector ({t},{b}) are not its orbit under the group')
                     break
     untouched('symmetrize()')
+    # degenerate matrices and directions: the zero matrix maps every vector to zero, and vectors exactly along +-z / the axes have a
+    # well-defined spherical representation (elevation +-90 degrees, radius = length)
+    from dataclasses import replace as _replace
+    z0 = o.transform(np.zeros((3, 3)))
+    if np.abs(z0.vectors).max() != 0:
+        bad.append('transform with the zero matrix does not give zero vectors')
+    axis_vecs = np.array([[[0.0, 0.0, 1.5], [0.0, 0.0, -2.0], [1.0, 0.0, 0.0], [0.0, -3.0, 0.0], [0.0, 0.0, 1e-3], [2.0, 0.0, 2.0], [0.0, 1.0, -1.0], [-1.0, -1.0, 0.0]]])
+    oa = _replace(o, in_vectors=np.repeat(axis_vecs, len(traj), axis=0))
+    if not np.array_equal(np.asarray(oa.vectors), np.repeat(axis_vecs, len(traj), axis=0)):
+        bad.append('supplied vectors are not taken over unchanged')
+    sa = oa.vectors_spherical
+    az_, el_, r_ = np.radians(sa[..., 0]), np.radians(sa[..., 1]), sa[..., 2]
+    back_ = np.stack([r_ * np.cos(el_) * np.cos(az_), r_ * np.cos(el_) * np.sin(az_), r_ * np.sin(el_)], axis=-1)
+    if not np.allclose(back_, oa.vectors, atol=1e-9):
+        bad.append('spherical representation of axis-aligned vectors is not invertible')
     sph = o.vectors_spherical
     az, el, r = np.radians(sph[..., 0]), np.radians(sph[..., 1]), sph[..., 2]
     back = np.stack([r * np.cos(el) * np.cos(az), r * np.cos(el) * np.sin(az), r * np.sin(el)], axis=-1)
